@@ -16,18 +16,18 @@ open I2N.Index
 
 /-- Lookup by a dotted partial name returns exactly the ids of the tests whose full name contains
 the query's variants contiguously. -/
-theorem get_exact (ns : List (List String × Nat)) (hwf : WF ns) (q0 : String) (qs : List String) (id : Nat) :
+theorem get_exact (ns : List (List String × Nat)) (hwf : WFb ns) (q0 : String) (qs : List String) (id : Nat) :
     id ∈ get (insertAll ns) (q0 :: qs) ↔ ∃ name, (name, id) ∈ ns ∧ (q0 :: qs) <:+: name :=
   mem_get_iff (inv_insertAll ns hwf) q0 qs id
 
 /-- … each once: with pairwise distinct test ids the result has no duplicates. -/
 theorem get_each_once (ns : List (List String × Nat)) (hwf : WF ns) (hids : (ns.map (·.2)).Nodup)
     (q : List String) : (get (insertAll ns) q).Nodup :=
-  get_nodup (inv_insertAll ns hwf) hwf hids q
+  get_nodup (inv_insertAll ns hwf.toWFb) hwf hids q
 
 /-- … regardless of insertion order: any two insertion orders of the same name set give the same
 lookups (as sets; with `get_each_once` as multisets). -/
-theorem get_order_independent (ns ns' : List (List String × Nat)) (hwf : WF ns) (hwf' : WF ns')
+theorem get_order_independent (ns ns' : List (List String × Nat)) (hwf : WFb ns) (hwf' : WFb ns')
     (hperm : ∀ n, n ∈ ns ↔ n ∈ ns') (q0 : String) (qs : List String) (id : Nat) :
     id ∈ get (insertAll ns) (q0 :: qs) ↔ id ∈ get (insertAll ns') (q0 :: qs) := by
   rw [get_exact ns hwf, get_exact ns' hwf']
@@ -36,7 +36,7 @@ theorem get_order_independent (ns ns' : List (List String × Nat)) (hwf : WF ns)
   · rintro ⟨name, h, hi⟩; exact ⟨name, (hperm _).2 h, hi⟩
 
 /-- Membership queries agree with lookups. -/
-theorem contains_iff_get (ns : List (List String × Nat)) (hwf : WF ns) (q0 : String) (qs : List String) :
+theorem contains_iff_get (ns : List (List String × Nat)) (hwf : WFb ns) (q0 : String) (qs : List String) :
     contains (insertAll ns) (q0 :: qs) = true ↔ get (insertAll ns) (q0 :: qs) ≠ [] := by
   have hinv := inv_insertAll ns hwf
   rw [contains_iff]
@@ -110,6 +110,17 @@ theorem visit_seen_by_all (regs : Nat → Register) (b : Bridging) (x y : Nat) (
     getCounters (regs (b.reg x)) node worker = getCounters (regs (b.reg y)) node worker := by rw [h]
 
 /-! ## Non-vacuity and boundary witnesses -/
+
+/-- Really parsed multi-vm names repeat inner variants (the net block once per vm): they are outside `WF`
+but inside `WFb`, so membership exactness, order independence and `contains` still apply to them; only
+"each once" can fail — a query occurring twice in one name returns that test twice (witness below; the
+same happens in the real class). -/
+def multiVmNames : List (List String × Nat) :=
+  [(["normal", "t3", "vms", "vm1", "nets", "localhost", "net1", "vm2", "nets", "localhost", "net1"], 0),
+   (["all", "customize", "vms", "vm1", "nets", "localhost", "net1"], 1)]
+
+example : get (insertAll multiVmNames) ["nets", "localhost", "net1"] = [0, 0, 1] := by decide
+example : get (insertAll multiVmNames) ["t3", "vms", "vm1"] = [0] := by decide
 
 /-- the five literal names of the selftests (`test_prefix_tree_*`) satisfy `WF` -/
 def selftestNames : List (List String × Nat) :=
